@@ -92,7 +92,7 @@ def c05_check(case, out, bent=False, unwrap=False, skip_ill=False):
     unwrap = a reported coordinate equal to the LAST grid line (never the origin of a cell) is read as the FIRST
              line (what index -1 wrapped around from, F20),
     skip_ill = the horizontal cells of a segment that straddles a grid line with a coordinate change of at most
-             1e-13 rad (a few ulp) are not checked (catastrophic cancellation in slope * line + intercept, FC04d/FC05c)."""
+             about 1e-11 rad (crossing position determined to less than 3 digits) are not checked (catastrophic cancellation in slope * line + intercept, FC04d/FC05c)."""
     probs = []
     nseg = len(case['lats']) - 1
     L = len(out['lat'])
@@ -233,7 +233,7 @@ def c05_oracle(case, out):
 
 def ill_segment(case, j):
     d = [abs(case[k][j + 1] - case[k][j]) for k in ('lats', 'lons')]
-    return any(0 < x <= 1e-13 for x in d) and c04.conditioning(case, j) > 1e-3
+    return any(0 < x <= 1e-10 for x in d) and c04.conditioning(case, j) >= 1e-3
 
 
 # ----------------------------------------------------------------------------------------------
